@@ -332,6 +332,10 @@ type c10Prog struct {
 	// ListArg: source of an expression whose value (a list OBJECT, made once per session on the same generator and
 	// kept by the harness) is passed as first argument `l` to every evaluation of this program
 	ListArg string `json:"list_arg,omitempty"`
+	// OracleSrc: programs that traverse ONE list value several times in one evaluation are judged against the
+	// "|"-joined outcomes of these programs, each evaluated once on a generator of its own (each traverses the
+	// value once, or materialises it first): the specification of a fresh traversal
+	OracleSrc []string `json:"oracle_src,omitempty"`
 }
 
 func c10MkProg(name string, defs []c10Def, body *c10E, listBody bool) *c10Prog {
@@ -485,7 +489,63 @@ func c10Pool() []*c10Prog {
 	}
 }
 
-func c10FullPool() []*c10Prog { return append(c10Pool(), c10FailingPool()...) }
+
+// stateful lazy stages: (a) a constant-folded stage value shared by all evaluations, iterated (never
+// materialised) by each of them completely or partially (string / first / top(2) / reduce, chosen by a1);
+// (b) a let-bound stage value traversed twice in ONE evaluation (twice completely, after an early stop, after
+// size(), as both operands of cross), judged against single-traversal programs (OracleSrc); (c) constants
+// whose sub-results (windows, groups) are handed out: append on a sub-result in one evaluation, read in another;
+// (d) results built per evaluation from literals and stages, kept by the host and re-observed at the end
+func c10StatefulPool() []*c10Prog {
+	stages := [][2]string{
+		{"compact", "compact((a,b)->a=b)"}, {"iir", "iir(x->x,(x,acc)->acc+x)"}, {"iirCombine", "iirCombine(x->x,(p,q,acc)->acc+q-p)"},
+		{"combine", "combine((p,q)->p*10+q)"}, {"combine3", "combine3((p,q,r)->p*100+q*10+r)"}, {"combineN", "combineN(2,l->l.sum())"},
+		{"number", "number((i,e)->i*10+e)"}, {"merge", "merge([0,2,2,9],(p,q)->p<q)"}, {"top", "top(4)"}, {"skip", "skip(2)"},
+		{"accept", "accept(e->e<3)"}, {"cross", "cross([1,2],(p,q)->p*q)"}, {"fsm", "fsm((s,i)->goto((3*s.state+i)%7)).map(s->s.state)"},
+		{"movingWindow", "movingWindow(x->x).map(w->w.size())"}, {"orderLess", "orderLess((a,b)->a<b)"},
+		// groupBy*/unique* iterate Go maps: the order of their results is not promised, they are left out
+	}
+	modes := "let m=c.map(x->x*(a0+1)); if a1<1 then m.string() else if a1<2 then string(m.first()) else if a1<3 then m.top(2).string() else string(m.reduce((a,b)->a+b))"
+	var ps []*c10Prog
+	for _, st := range stages {
+		ps = append(ps, c10Opaque("stage-const-"+st[0], "let c=[1,1,2,3,3,1]."+st[1]+"; "+modes))
+		// the stage value is iterated directly (no map in between), partially then completely in later evaluations
+		ps = append(ps, c10Opaque("stage-const-direct-"+st[0], "let c=[1,1,2,3,3,1]."+st[1]+"; if a1<1 then c.string()+a0 else if a1<2 then string(c.first())+a0 else if a1<3 then c.top(a0).string() else (a0 ~ c)+\"\""))
+		e := "[a0,1,a0,3,3,a0]." + st[1]
+		mk := func(name, a, b string) {
+			p := c10Opaque("stage-twice-"+name+"-"+st[0], "let s="+e+"; "+a+"+\"|\"+"+b)
+			p.OracleSrc = []string{"let s=" + e + "; " + a, "let s=" + e + "; " + b}
+			ps = append(ps, p)
+		}
+		mk("full-full", "s.string()", "s.string()")
+		mk("first-full", "string(s.first())", "s.string()")
+		mk("top-full", "s.top(2).string()", "s.string()")
+		mk("contains-full", "string(a1 ~ s)", "s.string()")
+		mk("full-size", "s.string()", "string(s.size())")
+		p := c10Opaque("stage-twice-cross-"+st[0], "let s="+e+"; s.cross(s,(p,q)->p*10+q).string()")
+		p.OracleSrc = []string{"let s=" + e + ".eval(); s.cross(s,(p,q)->p*10+q).string()"}
+		ps = append(ps, p)
+	}
+	ps = append(ps,
+		// (c) sub-results of constants
+		c10Opaque("windows-append-read", "let w=[10,11,12,13].movingWindow(x->x); if a1<1 then w[0].append(a0).string() else w[a0].string()+w.string()"),
+		c10Opaque("windows-append-list", "let c=[10,11,12,13]; let w=c.movingWindow(x->x); if a1<2 then w[1].append(a0) else w[2]+c"),
+		c10Opaque("windows-append-twice", "let w=[10,11,12,13,14].movingWindow(x->x); w[a1].append(a0).string()+w[a1].append(a0+1).string()+w.string()"),
+		c10Opaque("combineN-append-read", "let c=[10,11,12,13].combineN(2,l->l); if a1<1 then c[0].append(a0).string() else c.string()"),
+		c10Opaque("top-of-const-append", "let c=[10,11,12,13]; if a1<1 then c.top(2).eval().append(a0).string() else c.string()+c.top(3).string()"),
+		// (d) results built per evaluation, kept by the host
+		c10Opaque("build-concat", "[1,2]+[a0,a1]"),
+		c10Opaque("build-empty-append", "let e=[]; e.append(a0).append(a1)"),
+		c10Opaque("build-windows", "[a0,a1,a0+1,7].movingWindow(x->x)"),
+		c10Opaque("build-const-windows", "let c=[10,11,12,13]; c.movingWindow(x->x).map(w->w.append(a0))"),
+		c10Opaque("build-combine", "[1,2,3].combine((p,q)->p+q+a0)"),
+		c10Opaque("build-combineN", "numbers(4).combineN(2,l->l.append(a0))"),
+		c10Opaque("build-const-append", "let c=[1,2].append(3); [c.append(a0),c.append(a1)]"),
+	)
+	return ps
+}
+
+func c10FullPool() []*c10Prog { return append(append(c10Pool(), c10FailingPool()...), c10StatefulPool()...) }
 
 
 // lazy constants whose MATERIALISATION fails at an element k > 0 (List.Eval must leave the object untouched), and
@@ -916,8 +976,25 @@ func c10Consume(v value.Value, err error, j int, modelled bool) c10Out {
 var c10OracleCache = map[string]c10Out{}
 
 func c10Oracle(p *c10Prog, args []int64, j int) c10Out {
-	key := fmt.Sprintf("%s|%s|%v|%d", p.Src, p.ListArg, args, j)
+	key := fmt.Sprintf("%s|%s|%v|%v|%d", p.Src, p.ListArg, p.OracleSrc, args, j)
 	if o, ok := c10OracleCache[key]; ok {
+		return o
+	}
+	if len(p.OracleSrc) > 0 {
+		var parts []string
+		o := c10Out{Kind: "str"}
+		for _, src := range p.OracleSrc {
+			po := c10Oracle(&c10Prog{Src: src, Args: p.Args}, args, j)
+			if po.Kind != "str" {
+				o = c10Out{Kind: po.Kind}
+				break
+			}
+			parts = append(parts, po.S)
+		}
+		if o.Kind == "str" {
+			o.S = strings.Join(parts, "|")
+		}
+		c10OracleCache[key] = o
 		return o
 	}
 	fg := value.New()
@@ -1073,7 +1150,7 @@ func c10RunSession(c *c10Case, sum *Summary) *c10Result {
 		j    int
 	}
 	lastSeen := map[seenKey]int{}
-	var pending []func()
+	var pending, held []func()
 	pooled := map[string]value.Value{} // maker source -> the ONE list object of this session
 	for n, ev := range c.Events {
 		switch ev.Kind {
@@ -1134,6 +1211,20 @@ func c10RunSession(c *c10Case, sum *Summary) *c10Result {
 					res.coqObs[nn] = "XEval " + out.coq() + " " + c10RepsCoq(reps)
 				}
 			}
+			// (i) the host keeps every list it got and re-observes it when the session is over: what it shows then
+			// must be what it showed when it was consumed (deep rendering both times)
+			if _, isList := v.(*value.List); isList && err == nil && evv.J > 0 {
+				held = append(held, func() {
+					was := res.outs[nn]
+					now := c10Consume(v, nil, evv.J, fn.prog.Coq != "")
+					sum.Count("held_results", "re-observed at the end of the session")
+					if (was.Kind != now.Kind || was.String() != now.String()) && res.viol == nil {
+						res.viol = &GoViolation{CaseID: c.ID, What: fmt.Sprintf("the list returned by evaluation %d of the session (function %d, %s) shows different elements at the end of the session", nn, evv.K, fn.prog.Name),
+							Sig: "held-result-changed/" + fn.prog.Class, Expected: was.String(), Observed: now.String(),
+							Human: map[string]any{"program": fn.prog.Src, "args": evv.Args, "consumed": evv.J, "event": nn}}
+					}
+				})
+			}
 			// results kept by the host during this evaluation are consumed now
 			for _, f := range pending {
 				f()
@@ -1176,6 +1267,9 @@ func c10RunSession(c *c10Case, sum *Summary) *c10Result {
 		}
 	}
 	for _, f := range pending {
+		f()
+	}
+	for _, f := range held {
 		f()
 	}
 	return res
